@@ -252,6 +252,27 @@ def run(ck):
                 f = oracle(c, over, ti, io)
                 if f:
                     fails.append((i, f))
+        # the same cases under 4 threads and competing load (the parallel loop over the cells must give every node the same
+        # law: a coupled pair is integrated once, by its owner, whatever the other threads are doing)
+        if contact == 1 and dyn == 0:
+            import subprocess
+            burners = [subprocess.Popen(["sh", "-c", "while :; do :; done"]) for _ in range(10)]
+            try:
+                for rep in range(2 if ck.tier == "quick" else 6):
+                    touts, _cr = vlib.run_lines_resilient([impl], lines, env={"OMP_NUM_THREADS": "4"})
+                    for i, (c, lt) in enumerate(zip(cases, touts)):
+                        if lt is None or not c["scope"]:
+                            continue
+                        tt, to = parse_out(lt)
+                        f = oracle(c, over, tt, to)
+                        if f:
+                            fails.append((i, f + " [4 threads]"))
+                    total += len(cases)
+            finally:
+                for b in burners:
+                    b.kill()
+                for b in burners:
+                    b.wait()
         cfg_counts["contact%d_dynamic%d" % (contact, dyn)] = len(cases)
         for i, f in fails[:2]:
             ck.report(dict(input=lines[i], config=dict(contact_model=contact, dynamic_model=dyn, threads=1),
@@ -271,7 +292,7 @@ def run(ck):
     ck.notes["configurations"] = cfg_counts
     ck.notes["tier2_reassociation_suspected"] = tier2
     ck.cov["trusted_base"] = vlib.TRUSTED_BASE_COMMON + ["compile-time configuration through -include harness/cfg_override.hpp; protected state through the friend class cell_tester defined in the driver"]
-    ck.assumptions = ["single-threaded runs (OMP_NUM_THREADS=1): schedule independence is C15", "oracle only on cases inside the property's quantifier (mutual couplings, no coupling into a static cell, list index = local id)"]
+    ck.assumptions = ["single-threaded runs for the correspondence; the default configuration is also run with 4 threads under competing load against the closed-form oracle", "oracle only on cases inside the property's quantifier (mutual couplings, no coupling into a static cell, list index = local id)"]
 
 
 def replay(ck, path):
